@@ -88,7 +88,7 @@ var transformers = map[string]bool{
 	"(*encoding/base64.Encoding).EncodeToString": true, "strings.TrimPrefix": true, "strings.TrimSuffix": true, "strings.TrimSpace": true,
 	"strings.ToLower": true, "strings.ToUpper": true, "strings.Join": true, "strings.Fields": true, "strings.Replace": true, "strings.ReplaceAll": true,
 	"(time.Time).Add": true, "(time.Time).UTC": true, "net/http.CanonicalHeaderKey": true, "strings.Trim": true, "strings.TrimRight": true, "strings.TrimLeft": true,
-	"(error).Error": true, "(*bytes.Buffer).Bytes": true, "(*bytes.Buffer).String": true, "html.EscapeString": true, "net/url.PathEscape": true, "path.Join": true, "strings.Split": true, "strings.SplitN": true,
+	"(error).Error": true, "(github.com/google/uuid.UUID).String": true, "(*bytes.Buffer).Bytes": true, "(*bytes.Buffer).String": true, "html.EscapeString": true, "net/url.PathEscape": true, "path.Join": true, "strings.Split": true, "strings.SplitN": true,
 }
 
 func (cx *Ctx) newVFlow(entryKey string, entries ...*ssa.Function) *VFlow {
@@ -1363,4 +1363,43 @@ func (vf *VFlow) ctxArg(a ssa.Value) ssa.Value {
 		ctx = ctx[:len(ctx)-1]
 	}
 	return a
+}
+
+// CallArgSourcesByType: like CallArgSources, but the argument is identified by its type instead of its position - an
+// argument of that type, or the field of that type of a parameter object (struct literal) handed to the call.
+func (vf *VFlow) CallArgSourcesByType(match func(ssa.CallInstruction) bool, isT func(types.Type) bool) (LabelSet, []ssa.CallInstruction) {
+	out := LabelSet{}
+	var sites []ssa.CallInstruction
+	for _, fn := range vf.cx.W.sortedFuncs(vf.scope) {
+		for _, c := range callsIn(fn) {
+			if !match(c) {
+				continue
+			}
+			found := false
+			for _, a := range c.Common().Args {
+				if isT(a.Type()) {
+					found = true
+					out.addAll(vf.Labels(a), 0)
+				}
+				if ld, isLd := a.(*ssa.UnOp); isLd {
+					if al, isAl := ld.X.(*ssa.Alloc); isAl {
+						for _, ref := range nonDebugRefs(al) {
+							if fa, isFA := ref.(*ssa.FieldAddr); isFA {
+								for _, r2 := range nonDebugRefs(fa) {
+									if st, isSt := r2.(*ssa.Store); isSt && st.Addr == ssa.Value(fa) && isT(st.Val.Type()) {
+										found = true
+										out.addAll(vf.Labels(st.Val), 0)
+									}
+								}
+							}
+						}
+					}
+				}
+			}
+			if found {
+				sites = append(sites, c)
+			}
+		}
+	}
+	return out, sites
 }
